@@ -13,7 +13,7 @@ func init() { checks["C15"] = checkC15 }
 
 func checkC15(c *Ctx) {
 	r := c.Rng
-	c.Ev.Coverage.Rule = "histories of 2..30 calls sharing one reused ParsedJson (kept across failures: the object handed in is reused again after a failed call), one Serializer switching modes (and, in a separate stream, one Serializer fed 120 k string pairs whose second document's strings are prefixes of what the first call left in its string buffer) and one Deserialize destination (the blob, taken after the in-place edits so that it carries deleted runs, is also deserialized into a fresh destination: same tape word for word, same strings, same re-serialization): Parse/ParseND of valid documents, stage-1 failures (unterminated string, control character, no closing bracket) and stage-2 failures, below and above the 8 KiB threshold (also failing in a late index buffer, and at the very start of a dense <= 8 KiB document with several index buffers queued); half of the histories use by-value handles, both string modes, in-place edits of the returned object in between; every call's outcome and canonical document are compared with the same call on fresh objects; the index channel of the reused state must be empty after every call. non-trivial = history with at least one failure followed by a success on the reused object; distinct = by call sequence"
+	c.Ev.Coverage.Rule = "histories of 2..30 calls sharing one reused ParsedJson (kept across failures: the object handed in is reused again after a failed call), one Serializer switching modes (and, in a separate stream, one Serializer fed 120 k string pairs whose second document's strings are prefixes of what the first call left in its string buffer) and one Deserialize destination (also fed damaged blobs — a block of size 0 for a non-empty section, changed declared sizes, emptied sections, byte damage — whose verdict and document must be those a fresh Serializer and destination give) (the blob, taken after the in-place edits so that it carries deleted runs, is also deserialized into a fresh destination: same tape word for word, same strings, same re-serialization): Parse/ParseND of valid documents, stage-1 failures (unterminated string, control character, no closing bracket) and stage-2 failures, below and above the 8 KiB threshold (also failing in a late index buffer, and at the very start of a dense <= 8 KiB document with several index buffers queued); half of the histories use by-value handles, both string modes, in-place edits of the returned object in between; every call's outcome and canonical document are compared with the same call on fresh objects; the index channel of the reused state must be empty after every call. non-trivial = history with at least one failure followed by a success on the reused object; distinct = by call sequence"
 	mkDoc := func() (doc []byte, nd bool, kind string) {
 		size := r.Intn(4)
 		var base string
@@ -194,6 +194,87 @@ func checkC15(c *Ctx) {
 		c.Ev.Dist(fmt.Sprintf("calls:%d", len(calls)/10*10))
 		if h%53 == 0 {
 			c.Ev.Sample(map[string]interface{}{"calls": calls})
+		}
+	}
+	// damaged blobs: Deserialize with a Serializer and a destination that were used before must
+	// give what a fresh Serializer and a fresh destination give — the same verdict, and on
+	// success the same document (a block that is skipped or cut short must not let the previous
+	// call's bytes through)
+	{
+		ser := simdjson.NewSerializer()
+		var dst *simdjson.ParsedJson
+		for i := 0; i < c.N(300, 3000); i++ {
+			// prime the reused pair with another document
+			pa := implParse(genDoc(r, &GenOpts{MaxDepth: 3, MaxFan: 4, TopFan: 6 + r.Intn(10)}), false, true, nil)
+			pb := implParse(genDoc(r, &GenOpts{MaxDepth: 3, MaxFan: 4, TopFan: 3 + r.Intn(8)}), false, true, nil)
+			if pa.Err || pb.Err {
+				continue
+			}
+			mode := compModes[r.Intn(4)]
+			ser.CompressMode(mode)
+			blobA, panA := safeSerialize(ser, pa.PJ)
+			if panA != "" {
+				continue
+			}
+			if d2, err, pan := safeDeserialize(ser, blobA, dst); err == nil && pan == "" {
+				dst = d2
+			}
+			ws := simdjson.NewSerializer()
+			ws.CompressMode(mode)
+			blobB, panB := safeSerialize(ws, pb.PJ)
+			fr, ferr := parseBlob(blobB)
+			if panB != "" || ferr != nil {
+				continue
+			}
+			var bad []byte
+			switch r.Intn(4) {
+			case 0: // a block stored with size 0 although its section is declared non-empty
+				bad = fr.buildWith(3+2*r.Intn(4), 0, false)
+			case 1: // a declared size changed
+				idx := 2 + 2*r.Intn(4)
+				bad = fr.buildWith(idx, fr.field(idx)+uint64(1+r.Intn(3)), false)
+			case 2: // a section emptied altogether
+				k := r.Intn(4)
+				f2 := *fr
+				switch k {
+				case 0:
+					f2.Strings = section{}
+				case 1:
+					f2.Msg = section{}
+				case 2:
+					f2.Tags = section{}
+				default:
+					f2.Vals = section{}
+				}
+				bad = f2.build()
+			default: // byte damage
+				bad = append([]byte{}, blobB...)
+				bad[r.Intn(len(bad))] ^= byte(1 + r.Intn(255))
+			}
+			if declaredTooBig(bad) {
+				continue
+			}
+			gotR, errR, panR := safeDeserialize(ser, bad, dst)
+			gotF, errF, panF := safeDeserialize(simdjson.NewSerializer(), bad, nil)
+			c.Ev.Count("damaged-blob-reuse", bad, errF == nil)
+			info := map[string]interface{}{"blob_hex": fmt.Sprintf("%x", trunc(string(bad), 3000)), "mode": fmt.Sprint(mode), "reused_err": fmt.Sprint(errR, panR), "fresh_err": fmt.Sprint(errF, panF)}
+			if panR != "" || panF != "" {
+				continue // C19's business
+			}
+			if (errR == nil) != (errF == nil) {
+				c.Violate("reuse", "Deserialize of a damaged blob with a reused Serializer/destination has another verdict than with fresh ones", "reuse-deser-damaged-verdict", info)
+				break
+			}
+			if errR == nil {
+				a, e1 := dumpDoc(gotR)
+				b, e2 := dumpDoc(gotF)
+				if (e1 == nil) != (e2 == nil) || a != b {
+					info["reused"], info["fresh"] = trunc(a, 300), trunc(b, 300)
+					c.Violate("reuse", "Deserialize of a damaged blob into a reused destination exposes another document than into a fresh one", "reuse-deser-damaged-doc", info)
+					break
+				}
+				dst = gotR
+			}
 		}
 	}
 	// a Serializer used before must give what a fresh one gives: 120 k (short, short+suffix)
